@@ -6,6 +6,7 @@ import Driver.OpsHistory
 import Driver.OpsOutput
 import Driver.OpsClap
 import Driver.OpsScope
+import Driver.OpsRenamePlan
 /-
   rmodel: the executable side of the Lean model.  One request per line on stdin, one canonical
   result line on stdout; the same lines go to the Rust harness and the two streams are diffed.
@@ -21,6 +22,7 @@ def handlers : List (List String → Option String) :=
   , OpsOutput.dispatch
   , OpsClap.dispatch
   , OpsScope.dispatch
+  , OpsRenamePlan.dispatch
   ]
 
 def dispatch (fields : List String) : String :=
